@@ -148,7 +148,12 @@ def main(argv=None):
 
     wall = time.time() - t0
     ev = build_evidence(mod, prop, tier, seed, results, wall, n_new, n_known, incon, REPO)
-    json.dump(ev, open(os.path.join(HERE, "evidence", f"{prop}.json"), "w"), indent=1, default=str)
+    evdir = os.path.join(HERE, "evidence")
+    if os.path.realpath(REPO) != os.path.realpath("/repo"):
+        # a run against a scratch copy (mutant / seeded change) must not overwrite the evidence of /repo itself
+        evdir = os.environ.get("VERIF_SCRATCH_EVIDENCE", "/var/tmp/verif_scratch_evidence")
+        os.makedirs(evdir, exist_ok=True)
+    json.dump(ev, open(os.path.join(evdir, f"{prop}.json"), "w"), indent=1, default=str)
 
     tot_paths = sum(r.get("paths", 0) for r in results)
     q = {}
